@@ -276,6 +276,7 @@ func cmdCheck(prop, tier string) int {
 	usedAxioms := map[string]bool{}
 	var knownLines []string
 	nReplays := 0
+	replayStart := time.Now()
 	for _, o := range obls {
 		ok := obligationOK(o)
 		solverTime += o.Res.Seconds
@@ -320,7 +321,7 @@ func cmdCheck(prop, tier string) int {
 				}
 			}
 		}
-		if o.Replay != nil && o.Res.Status != "error" && !o.ExpectSat && nReplays < 6 {
+		if o.Replay != nil && o.Res.Status != "error" && !o.ExpectSat && nReplays < 4 && time.Since(replayStart) < 120*time.Second {
 			nReplays++
 			if extra, confirmed := tryReplay(p, o); extra != nil {
 				for k, v := range extra {
